@@ -422,4 +422,62 @@ def runDecls (m : Mapper) : List Decl → Mapper
   | [] => m
   | d :: ds => runDecls (connect m d.name d.compiled d.preds d.static).1 ds
 
+/-! ### `Configurator.add_route` (config/routes.py 22-514) and `route_prefix` stacking (config/__init__.py `include`,
+config/routes.py `route_prefix_context` 592-640)
+
+Only what decides dispatch is modelled: the pattern that reaches `mapper.connect`, the `static` flag and the
+predicates.  `factory`, `use_global_views`, `pregenerator`, introspection do not reach `RoutesMapper.__call__`
+(the correspondence run varies them).  A pattern that `urlparse` reads as having a host becomes an external static
+route: outside the model (`AddErr.external` is reported by the caller, the model does not parse URLs). -/
+
+/-- `str.lstrip('/')` -/
+def lstripSlash (t : Text) : Text := t.dropWhile (· = '/')
+/-- `str.rstrip('/')` -/
+def rstripSlash (t : Text) : Text := (t.reverse.dropWhile (· = '/')).reverse
+
+/-- `route_prefix_context(new)`: the value of `config.route_prefix` inside the context, given the one outside:
+`'{}/{}'.format(old.rstrip('/'), new.lstrip('/')).strip('/') or None` (a `None` counts as `''`) -/
+def stackPrefix (old new : Option Text) : Option Text :=
+  let s := Pyr.Trav.stripSlash (rstripSlash (old.getD []) ++ '/' :: lstripSlash (new.getD []))
+  if s = [] then none else some s
+
+/-- the prefix in force inside nested `include(…, route_prefix=pᵢ)` calls, outermost first; `top` is the
+`Configurator(route_prefix=…)` argument (kept as given) -/
+def prefixAt (top : Option Text) (incs : List (Option Text)) : Option Text := incs.foldl stackPrefix top
+
+/-- `add_route`, lines 395-403: the pattern handed to `mapper.connect` -/
+def routePattern (pfx : Option Text) (pattern : Text) (inheritSlash : Bool) : Text :=
+  match pfx with
+  | none => pattern
+  | some p =>
+    if p = [] then pattern                       -- `elif self.route_prefix:` is false for ''
+    else if pattern = [] && inheritSlash then p
+    else rstripSlash p ++ '/' :: lstripSlash pattern
+
+inductive AddErr where
+  | patternNone            -- neither `pattern` nor `path`
+  | inheritSlash           -- `inherit_slash` with a non-empty pattern
+deriving Repr, DecidableEq
+
+structure RouteArgs where
+  name : Text
+  pattern : Option Text
+  path : Option Text             -- the old alias, used when `pattern` is None
+  inheritSlash : Bool
+  static : Bool
+  preds : List Pred
+deriving Repr, DecidableEq
+
+/-- what `add_route` (called where `pfx` is in force) asks `mapper.connect` to do: (pattern, predicates, static) -/
+def addRoute (pfx : Option Text) (a : RouteArgs) : Except AddErr (Text × List Pred × Bool) :=
+  match (match a.pattern with | some p => some p | none => a.path) with
+  | none => .error .patternNone
+  | some pat =>
+    if a.inheritSlash && pat != [] then .error .inheritSlash
+    else .ok (routePattern pfx pat a.inheritSlash, a.preds, a.static)
+
+/-- `RequestMethodPredicate(val)(…, request)`: `GET` implies `HEAD` -/
+def requestMethodHolds (val : List Text) (method : Text) : Bool :=
+  (if val.contains "GET".toList && !val.contains "HEAD".toList then "HEAD".toList :: val else val).contains method
+
 end Pyr.Route
